@@ -60,7 +60,7 @@ SETTINGS = [  # (trim_blocks, lstrip_blocks, keep_trailing_newline, newline_sequ
 LINE_PREFIXES = [("#", "##"), ("%", "//")]
 CONTEXT = dict(x=1, y=0, name="Nm", seq=[1, 2, 3], d={"k": "v"})
 EXPRS = ["x", "name", "seq|length", "x + 1", "'lit'", "name|upper", "seq[0]", "{'a': 7}['a']", "(x, y)|join('-')", "d.k", "seq|join(',')", "x > y"]
-WORDS = ["alpha", "beta", "gamma.", "delta,", "eps;", "zeta:", "eta!", "42", "t h e"]
+WORDS = ["alpha", "beta", "gamma.", "delta,", "eps;", "zeta:", "eta!", "42", "t h e", "no # hash", "5 % off"]
 
 
 def family_kwargs(fam):
